@@ -809,7 +809,7 @@ class TensorEagerSubsRename(Contract):
         exp_names = [k.split(":")[1] if ":" in k else nm for nm, k in zip(names, ks)]
         exp_sizes = [ctx.slices[nm].size if nm in ctx.slices else ctx.bs[nm] for nm in names]
         cl = [("inputs_renamed_in_place" + tag, list(t.inputs) == exp_names and And(*[deep_eq(t.inputs[n].dtype, s) for n, s in zip(exp_names, exp_sizes)]))]
-        cl.append(("remaining_pairs_recursed_unchanged" + tag, [k for k, v in rest] == [nm for nm, k in zip(names, ks) if k == "num"]))
+        cl.append(("remaining_pairs_recursed_unchanged", [k for k, v in rest] == [nm for nm, k in zip(names, ks) if k == "num"]))
         shape = tuple(exp_sizes) + ctx.es
         if len(t.data.shape) == len(shape):
             idx = fresh_index(ctx.p, shape)
